@@ -15,7 +15,7 @@ RULE = ("one evaluation = one (stack shape, construction route, operation): shap
 ASSUMPTIONS = ["siblings of an emitting/consuming sublayer inside the same group are unspecified by the statement: only 'at most once' is required of them",
                "for a deferred event only layers beyond the first receiving item are required to wait for the loop",
                "the deferred queue is shared by all stacks of a process; it is drained between cases"]
-REQUIRED = ["first_login_stacks", "first_login_ok", "libstack_stacks", "libstack_ok", "libstack_events_up", "libstack_events_down", "emitter_stacks", "emitter_cycles", "emitter_ok", "own_stack_interface_lookups", "passthrough_compositions", "passthrough_ok", "earlier_stacks_rechecked", "earlier_stacks_intact", "shape_ops", "event_ops", "detached_ops", "helper_combos", "default_stack_combos", "interface_lookups", "groups_seen"]
+REQUIRED = ["published_tuple_stacks", "first_login_stacks", "first_login_ok", "libstack_stacks", "libstack_ok", "libstack_events_up", "libstack_events_down", "emitter_stacks", "emitter_cycles", "emitter_ok", "own_stack_interface_lookups", "passthrough_compositions", "passthrough_ok", "earlier_stacks_rechecked", "earlier_stacks_intact", "shape_ops", "event_ops", "detached_ops", "helper_combos", "default_stack_combos", "interface_lookups", "groups_seen"]
 EXHAUSTIVE = None
 
 LOG = []
@@ -489,6 +489,25 @@ def helpers(acc):
                         recheck_earlier(acc, kept)
                 except Exception as e:  # noqa
                     acc.violation("helper-raises:getDefaultStack:%s" % type(e).__name__, "getDefaultStack(%s) raised %r" % (w, e), w)
+    # the layer tuples the package publishes (yowsup.stacks.YOWSUP_*), used the way the README does: YowStack(tuple), twice each
+    # (two accounts in one process), optionally with an application layer on top
+    import yowsup.stacks as stacks_pkg
+    for tname in sorted(n for n in dir(stacks_pkg) if n.startswith("YOWSUP_") and isinstance(getattr(stacks_pkg, n), tuple)):
+        tup_ = getattr(stacks_pkg, tname)
+        for rep in range(2):
+            acc.count("published_tuple_stacks")
+            acc.case_enum()
+            w = {"helper": "published-tuple", "tuple": tname, "rep": rep}
+            try:
+                desc_ = ((rec_class("papp%d" % rep),) + tup_) if tname == "YOWSUP_FULL_STACK" else (tup_ if not isinstance(tup_[0], tuple) else tup_)
+                st = YowStack(desc_)          # (top first: the constructor's default)
+                f = wiring_faults(st)
+                if f:
+                    acc.violation("published-tuple-wiring:%s" % tname, "a fresh stack from yowsup.stacks.%s is miswired: %s" % (tname, f[:3]), w)
+                kept.append(("YowStack(%s) #%d" % (tname, rep), st))
+            except Exception as e:  # noqa
+                acc.violation("helper-raises:published-tuple:%s:%s" % (tname, type(e).__name__), "YowStack(yowsup.stacks.%s) raised %r" % (tname, e), w)
+    recheck_earlier(acc, kept)
     # positional use and defaults
     for args in [(), (True,), (False,), (True, False), (False, True, False), (True, True, True, True), (False, False, False, False)]:
         acc.count("helper_combos")
